@@ -211,7 +211,10 @@ def extract_function(inference_state, path, module_context, name, pos, until_pos
     nodes = _find_nodes(module_context.tree_node, pos, until_pos)
     assert len(nodes)
 
-    is_expression, _ = _is_expression_with_error(nodes)
+    is_expression, message = _is_expression_with_error(nodes)
+    if not is_expression and until_pos is None:
+        # Statements can only be extracted with a range.
+        raise RefactoringError(message)
     context = module_context.create_context(nodes[0])
     is_bound_method = context.is_bound_method()
     params, return_variables = list(_find_inputs_and_outputs(module_context, context, nodes))
